@@ -192,6 +192,11 @@ def create_dataset(
                 else:
                     val = value
 
+                if isinstance(val, bytes):
+                    # numpy sizes a bytes column from exact `bytes` objects only; given a bytes subclass
+                    # (BinaryParameter) it settles on 4 bytes per cell and cuts longer values off
+                    val = bytes(val)
+
                 data_dict[apid][key].append(val)
                 if key not in datatype_mapping[apid]:
                     # Add this datatype to the mapping
